@@ -67,7 +67,7 @@ func runStop(r *vk.Run, c StopCase) {
 		var err error
 		p, err = world.ProduceChain(context.Background(), spec, keys)
 		if err != nil {
-			r.Violation("producer", err.Error(), c)
+			r.Inconclusive("the aggregator producing the reference chain failed (not this property's business): " + err.Error())
 			return
 		}
 		opts.GenesisTime = world.GenesisTime
